@@ -60,7 +60,7 @@ prop("C18",
 prop("C03",
      "property-based testing (rapid): generated URI universes (target first, spelling second) vs. an independent RFC 3986/6901 resolver; fault injection in the Loader",
      "Universes of 1-4 documents with trees of embedded resources ($id absolute/relative/../ ./ /abs-path/urn:), anchors scoped to their resource, canonical-id vs retrieval-URI aliases, BaseURI empty/absolute, Loader nil/present/faulty; every reference picks its target node first and one of ~10 spellings second, giving chains, diamonds and cycles. Routing instances carry markers so that a route is valid iff it ends at the designated node; verdicts are compared with the reference evaluator, whose resolution is cross-checked against the generator's intention. Planted dangling references and unavailable documents must make Resolve fail; the Loader log must show no repeated URI and nothing that no reference names; Resolve runs under a deadline.",
-     MODEL_NOTE + " Domain restrictions (a)-(g) of DESIGN.md 3.5 (places where the specification leaves the answer open).")
+     MODEL_NOTE + " Domain restrictions (a)-(g) of DESIGN.md 3.5 (places where the specification leaves the answer open). Open known finding empty-ref-ignored (\"$ref\": \"\" is treated as no reference) is generated in a 5% slice of the universes only and counted.")
 prop("C04",
      "property-based testing (rapid): reflection-built Go types and values, encoding/json as the encoder, inferred schema as the acceptor",
      "Types are built with reflect.StructOf/SliceOf/ArrayOf/MapOf/PointerTo over all kinds and ~35 declared pool types (embedded by value/pointer/unexported, shadowing, std marshaler types), json tags from a grammar; values are filled by reflection (nil pointers/slices, extreme integers and floats, invalid UTF-8, interfaces). json.Marshal(&v) must validate against Resolve(ForType(T)); ForType may fail only for documented unsupported/cyclic types (own predicate). Two open known findings are generated only in dedicated 5% slices and attributed by class predicate.",
@@ -92,7 +92,7 @@ prop("C16",
 prop("C17",
      "property-based testing (rapid): pointers generated by an own RFC 6901 escaper / RFC 3986 fragment encoder over a reflection-derived keyword table; marker acceptance vectors vs. the reference pointer walk; negative probes",
      "A host under $defs/definitions populates every subschema-bearing keyword found by reflection (single, array, map valued, items/dependencies unions) with hostile keys; 2-6 probes per document, positive ones must select exactly the addressed subschema (acceptance of every marker compared with the reference evaluator, whose walk is cross-checked against the generator's location), negative ones (unknown/absent/non-schema keyword, missing key, bad index forms, pointer stopping at a container, bad escape) must make Resolve fail.",
-     MODEL_NOTE)
+     MODEL_NOTE + " Open known finding false-schema-has-not-child (a pointer ending in /not below a `false` subschema resolves into Unmarshal's {\"not\":{}} rendering of it) is generated in a 5% slice only and counted.")
 prop("C20",
      "property-based testing (rapid): clone-equality, pointer-disjointness and mutation-independence over reflection-generated Schema trees",
      "Schema trees with every subschema-bearing field populated (nil/empty/nested) are cloned; bytes and DeepEqual must agree, pointer sets must be disjoint, schema slices/maps must be distinct containers, a parent holding both must resolve, and after each of 1-6 generated mutations of one tree the other must still be DeepEqual to an independently built reference.",
